@@ -457,6 +457,55 @@ fn renderings_leg(acc: &mut Acc) {
     }
 }
 
+/// The authorised keys may arrive in any kind of collection: a vector, a filtered or chained
+/// iterator (no exact size known in advance), the values of a map, a generator. The verdict is
+/// that of the vector.
+fn iterator_kinds_leg(acc: &mut Acc) {
+    let f = family_by_name("ed25519");
+    let vi = |n: &str| f.entries.iter().position(|e| e.name == n).unwrap();
+    let lists: Vec<Vec<usize>> = vec![vec![], vec![vi("vA")], vec![vi("vA"), vi("vB")], vec![vi("vA"), vi("vB"), vi("vC")], vec![vi("uA"), vi("vB")], vec![vi("iA"), vi("vB"), vi("vA")]];
+    let auths: Vec<Vec<usize>> = vec![vec![], vec![0], vec![0, 1], vec![0, 1, 2], vec![1, 0, 0]];
+    for list in &lists {
+        for auth in &auths {
+            for t in [0u32, 1, 2, 3, 4] {
+                let block = Metablock { signatures: list.iter().map(|e| f.entries[*e].sig.clone()).collect(), metadata: f.meta.clone() };
+                let ks: Vec<&PublicKey> = auth.iter().map(|i| &f.keys[*i]).collect();
+                let as_vec = matches!(guard(|| block.verify(t, ks.clone())), Guard::Done(Ok(_)));
+                let map: std::collections::BTreeMap<usize, &PublicKey> = ks.iter().copied().enumerate().collect();
+                let mut gen_i = 0usize;
+                let kinds: Vec<(&str, Guard<bool>)> = vec![
+                    ("filter", guard(|| block.verify(t, ks.iter().copied().filter(|_| true)).is_ok())),
+                    ("chain", guard(|| block.verify(t, ks.iter().copied().take(1).chain(ks.iter().copied().skip(1))).is_ok())),
+                    ("map values", guard(|| block.verify(t, map.values().copied()).is_ok())),
+                    ("flat_map", guard(|| block.verify(t, ks.iter().flat_map(|k| std::iter::once(*k))).is_ok())),
+                    ("generator", guard(|| {
+                        block
+                            .verify(
+                                t,
+                                std::iter::from_fn(|| {
+                                    let k = ks.get(gen_i).copied();
+                                    gen_i += 1;
+                                    k
+                                }),
+                            )
+                            .is_ok()
+                    })),
+                ];
+                for (kname, r) in kinds {
+                    acc.evaluations += 1;
+                    acc.nontrivial += 1;
+                    let w = || json!({"kind": "iterator-kind", "iterator": kname, "signatures": list.iter().map(|e| f.entries[*e].name.clone()).collect::<Vec<_>>(), "authorized": auth.iter().map(|i| f.key_names[*i]).collect::<Vec<_>>(), "threshold": t});
+                    match r {
+                        Guard::Done(ok) if ok == as_vec => acc.outcome("iterator-kind-agrees"),
+                        Guard::Done(ok) => acc.violation(&format!("verdict-depends-on-the-kind-of-key-collection:{}", if ok { "accepted" } else { "rejected" }), &format!("verify gives {} for the authorised keys as a {kname} and {} for the same keys as a vector", if ok { "Ok" } else { "Err" }, if as_vec { "Ok" } else { "Err" }), w),
+                        Guard::Panicked(l, m) => acc.violation(&format!("panic:{l}"), &m, w),
+                    }
+                }
+            }
+        }
+    }
+}
+
 pub fn run(tier: Tier) -> i32 {
     let mut c = Check::new("C04", "model_checking", tier);
     let full = if tier.thorough() { 5 } else { 4 };
@@ -505,6 +554,8 @@ pub fn run(tier: Tier) -> i32 {
     }
     twin_leg(&mut acc);
     renderings_leg(&mut acc);
+    iterator_kinds_leg(&mut acc);
+    bounds.push("kinds of key collection: 6 signature lists x 5 authorised sequences x thresholds 0..4 x {filtered, chained, map values, flat_map, generator} against the vector".to_string());
     bounds.push("other renderings: 4 blocks x 3 key types x 4 renderings of the same content (escaped canonical form, serde compact / pretty, signing form + LF)".to_string());
     bounds.push("near twins: 3 links + 1 layout x every leaf of the signed part x every small edit that yields another readable block, both directions".to_string());
     c.acc = acc;
@@ -518,6 +569,11 @@ pub fn run(tier: Tier) -> i32 {
 }
 
 pub fn replay(case: &Value) -> Value {
+    if case["kind"] == "iterator-kind" {
+        let mut acc = Acc::new();
+        iterator_kinds_leg(&mut acc);
+        return json!({"note": "the leg is re-run as a whole", "violation": acc.violations.keys().next()});
+    }
     if case["kind"] == "other-rendering" {
         let mut acc = Acc::new();
         renderings_leg(&mut acc);
